@@ -68,7 +68,7 @@ impl<Res> InFlightRequests<Res> {
     ) -> Result<(), AlreadyExistsError> {
         match self.request_data.entry(request_id) {
             hash_map::Entry::Vacant(vacant) => {
-                let timeout = ctx.deadline.time_until();
+                let timeout = ctx.deadline.time_until().min(crate::util::MAX_TIMEOUT);
                 let deadline_key = self.deadlines.insert(request_id, timeout);
                 vacant.insert(RequestData {
                     ctx,
